@@ -283,15 +283,23 @@ func c11Interp(quote string, escapes bool) {
 	_, isSI := tk.ttype.(TokenType_SINTERP)
 	verifAssert(isSI && tk.begin+tk.len == len(body)+3, "the whole literal is one SINTERP token")
 	g := ExprToGo(dummyStmtToGo, New_Expr_ESInterP(tk.stringVal))
-	lit, args, ok := c11ParseCall(g)
-	verifAssert(ok, "emitted text is a frt.SInterP call")
-	format, ok2 := goUnquote(lit)
-	verifAssert(ok2, "emitted interpolation format is a valid Go literal")
 	// hole values: a is a one-byte string, b a small int
 	a := verifString("a", 1)
 	bv := verifInt("b")
 	verifAssume(0 <= bv)
 	verifAssume(bv < 100)
+	if len(g) > 0 && g[0] == '"' {
+		// a plain Go string literal is a legitimate translation of a hole-free literal
+		plain, okp := goUnquote(g)
+		verifAssert(okp, "emitted literal is a valid Go literal")
+		verifAssert(plain == denoteInterp(body, escapes, a, frt.Sprintf1("%d", bv)), "interpolated literal denotes its text with holes replaced")
+		verifCover("end")
+		return
+	}
+	lit, args, ok := c11ParseCall(g)
+	verifAssert(ok, "emitted text is a Go string literal or a frt.SInterP call")
+	format, ok2 := goUnquote(lit)
+	verifAssert(ok2, "emitted interpolation format is a valid Go literal")
 	var vals []any
 	for _, n := range args {
 		switch n {
